@@ -272,6 +272,20 @@ func (s *suite[T]) run() {
 				} else if !okSizes {
 					s.bad("SplitEvery", "wrong-result", "SplitEvery(%d, %s) = %v: groups must have %d elements (the last one at most)", c, d, groups, c)
 				}
+				// the groups are new lists: the caller may write into them without touching the list it passed in
+				// (for a size <= 0 or a list of at most one element the library hands the list back as its only group)
+				before := snapshot(l)
+				for _, g := range groups {
+					if c <= 0 || n <= 1 {
+						break
+					}
+					for i := range g {
+						g[i] = s.sentinel
+					}
+				}
+				if snapshot(l) != before {
+					s.bad("SplitEvery", "result-aliases-input", "writing into the groups returned by SplitEvery(%d, %s) changed the input list from %s to %s", c, d, before, snapshot(l))
+				}
 			}
 		}
 		// ---- unary helpers
